@@ -297,7 +297,14 @@ def coq_header(encs):
                  " && Bool.eqb (_builtin_struct_lt fr a b) olt && Bool.eqb (_builtin_struct_le fr a b) ole"
                  " && Bool.eqb (_builtin_struct_gt fr a b) ogt && Bool.eqb (_builtin_struct_ge fr a b) oge"
                  " && Bool.eqb (_builtin_same a b) oeq && Bool.eqb (_builtin_notsame a b) one.")
-    lines.append("Definition sort_ok (xs obs : list term) : bool := list_eqb (_builtin_sort_sorted fr (py_set_list xs)) obs.")
+    # sorted(set(xs), key=StructSort): the model evaluates ONE iteration order of the set (the theorems quantify over all of them).
+    # When the comparator ties on two distinct elements (only through the '-'(N) defect: -3 vs '-'(3)) CPython's hash order decides;
+    # the observation is then accepted when it is an arrangement of the same elements without an adjacent inversion.
+    lines.append("Fixpoint adj_ok (lt : term -> term -> bool) (l : list term) : bool := match l with x :: r => match r with y :: _ => negb (lt y x) && adj_ok lt r | [] => true end | [] => true end.")
+    lines.append("Fixpoint remove1 (x : term) (l : list term) : option (list term) := match l with [] => None | y :: r => if term_eqb x y then Some r else option_map (cons y) (remove1 x r) end.")
+    lines.append("Fixpoint perm_b (l m : list term) : bool := match l with [] => match m with [] => true | _ => false end | x :: l' => match remove1 x m with Some m' => perm_b l' m' | None => false end end.")
+    lines.append("Definition sort_ok (xs obs : list term) : bool := list_eqb (_builtin_sort_sorted fr (py_set_list xs)) obs"
+                 " || (perm_b obs (py_set_list xs) && adj_ok (StructSort__lt__ fr) obs).")
     lines.append("Definition sort_spec_ok (xs exp : list term) : bool := list_eqb (plg_sort (map denote xs)) exp.")
     return "\n".join(lines) + "\n"
 
@@ -483,8 +490,16 @@ def run(ctx):
         ctx.log("PropsFixed.v: obligations now %d/%d" % (ctx.cov["discharged"], ctx.cov["obligations"]))
 
     if ctx.replay:
-        replay(ctx)
+        replay(ctx, ctx.replay.get("replay", ctx.replay))
         return
+    # corpus of minimised past disagreements, replayed first
+    cdir = os.path.join(vf.CORPUS, "C15")
+    for name in sorted(os.listdir(cdir)) if os.path.isdir(cdir) else []:
+        if name.endswith(".json"):
+            import json
+            with open(os.path.join(cdir, name)) as f:
+                replay(ctx, json.load(f))
+            ctx.count("corpus_replayed")
 
     # ---- 3. pool
     sources = pool_sources(ctx, ctx.n(20, 830))
@@ -570,7 +585,8 @@ def run(ctx):
     coq_cases = []   # (kind, meta, bool term)
     for i in range(n):
         coq_cases.append(("rowimpl", i, "row_impl p%d %s" % (i, zlist([x if isinstance(x, int) else 77 for x in M[i]]))))
-        coq_cases.append(("rowspec", i, "row_spec p%d %s" % (i, zlist(E[i]))))
+        if ctx.tier == "quick" or i % 3 == 0:     # harness reference vs Coq definition: every row in quick, every third in thorough
+            coq_cases.append(("rowspec", i, "row_spec p%d %s" % (i, zlist(E[i]))))
 
     # ---- 6. through the engine: compare/3 (both modes), @<.., ==, \==
     npairs_engine = ctx.n(n * n, 200000)
@@ -617,8 +633,8 @@ def run(ctx):
     ctx.log("engine: %d pairs, %d disagree with the order" % (len(allpairs), len(found)))
     # model vs engine observations
     sel = list(range(len(allpairs)))
-    if len(sel) > ctx.n(6000, 60000):
-        sel = sorted(ctx.rng.sample(sel, ctx.n(6000, 60000)))
+    if len(sel) > ctx.n(6000, 30000):
+        sel = sorted(ctx.rng.sample(sel, ctx.n(6000, 30000)))
     for idx in sel:
         (i, j), ob = allpairs[idx], eng_obs[idx]
         if ob[0] == "EXC" or ob[0] is None or ob[0] == "MULTI":
@@ -679,7 +695,8 @@ def run(ctx):
             failing.setdefault(frozenset(ks), []).append(xs)
         cin = "; ".join(pref(e) for e in inp)
         coq_cases.append(("sortm", li, "sort_ok [%s] [%s]" % (cin, "; ".join(pref(e) for e in ob))))
-        coq_cases.append(("sorts", li, "sort_spec_ok [%s] [%s]" % (cin, "; ".join(pref(e) for e in exp))))
+        if ctx.tier == "quick" or li % 3 == 0:
+            coq_cases.append(("sorts", li, "sort_spec_ok [%s] [%s]" % (cin, "; ".join(pref(e) for e in exp))))
     ctx.cov["sort_lists"] = len(lists)
     ctx.cov["sort_lists_agree_with_spec"] = len(lists) - nbad
     found = []
@@ -825,8 +842,7 @@ def classify_sort(xs):
     return None
 
 
-def replay(ctx):
-    r = ctx.replay.get("replay", ctx.replay)
+def replay(ctx, r):
     kind = r.get("kind")
     if kind in ("pair", "engine-pair"):
         srcs = [r["a"], r["b"]]
@@ -847,6 +863,17 @@ def replay(ctx):
             o, e = show_sort(xs)
             ctx.violation("sort([%s], L) gives %s, the standard order says %s" % (",".join(xs), o, e),
                           {"kind": "sort", "list": xs, "observed": o, "expected": e}, klass=classify_sort(xs))
+    elif kind == "triple":
+        srcs = [r["a"], r["b"], r["c"]]
+        objs = parse_pool(srcs)
+        e = [enc(o) for o in objs]
+        from problog.engine_builtin import struct_cmp
+        ab, bc, ac = (cmp3(struct_cmp(objs[i], objs[j]), 0) for i, j in ((0, 1), (1, 2), (0, 2)))
+        ctx.case(("triple",) + tuple(srcs), True)
+        if ab == -1 and bc == -1 and ac != -1:
+            k = classify(e[0], e[2], ac) or classify(e[0], e[1], ab) or classify(e[1], e[2], bc)
+            ctx.violation("transitivity fails: %s @< %s and %s @< %s but struct_cmp(%s,%s)=%r" % (srcs[0], srcs[1], srcs[1], srcs[2], srcs[0], srcs[2], ac),
+                          {"kind": "triple", "a": srcs[0], "b": srcs[1], "c": srcs[2]}, klass=k)
     elif kind == "goal":
         rr = engine_batch_plain()
         ctx.case(("goal",), True)
